@@ -11,6 +11,12 @@ META_EXCLUDE.add('node_without_result')
 META_EXCLUDE.add('success_channels')
 
 
+def _dumps(data):
+    # "~" can only occur inside a JSON string; written as an escape sequence
+    # the packet delimiter "~~~" never is part of a packet
+    return json.dumps(data).replace('~', '\\u007e')
+
+
 def load_event(s):
     data = json.loads(s)
 
@@ -49,7 +55,7 @@ def dump_event(e, id):
         'meta': meta,
     }
 
-    return json.dumps(data)
+    return _dumps(data)
 
 
 def dump_value(v):
@@ -66,7 +72,7 @@ def dump_value(v):
         'value': v._value,
         'meta': meta,
     }
-    return json.dumps(data)
+    return _dumps(data)
 
 
 def load_value(v):
